@@ -115,14 +115,15 @@ def build_domain(d):
     return Domain([Range(lo, hi) for lo, hi in d["ranges"]], list(d["elems"]))
 
 
-def build_feature(f, parent=None, via_set=False, fill=False):
+def build_feature(f, parent=None, via_set=False, fill=False, listfill=False):
     from flamapy.metamodels.fm_metamodel.models import Feature, Relation, Attribute
     from flamapy.metamodels.fm_metamodel.models.feature_model import FeatureType, Cardinality
+    own_list = [] if listfill else None       # listfill: the feature is given its list of relations, filled afterwards
     if (f["cmin"], f["cmax"]) == (1, 1):
         # the constructor's own default [1..1], as every reader leaves it for a feature without a cardinality clause
-        feat = Feature(f["name"], parent=parent, is_abstract=f["abstract"], feature_type=FeatureType(f["type"]))
+        feat = Feature(f["name"], own_list, parent=parent, is_abstract=f["abstract"], feature_type=FeatureType(f["type"]))
     else:
-        feat = Feature(f["name"], parent=parent, is_abstract=f["abstract"],
+        feat = Feature(f["name"], own_list, parent=parent, is_abstract=f["abstract"],
                        feature_type=FeatureType(f["type"]),
                        feature_cardinality=Cardinality(f["cmin"], f["cmax"]))
     attrs = [Attribute(a["name"], build_domain(a["domain"]), _copy(a["default"]), _copy(a["null"]))
@@ -132,6 +133,13 @@ def build_feature(f, parent=None, via_set=False, fill=False):
     else:
         for attr in attrs:
             feat.add_attribute(attr)
+    if listfill:
+        # the list object handed to the constructor IS the feature's list of relations: the caller appends the relations
+        # to it (every child was given its parent by its own constructor)
+        for r in f["rels"]:
+            own_list.append(Relation(feat, [build_feature(c, feat, via_set, False, True) for c in r["children"]],
+                                     r["min"], r["max"]))
+        return feat
     if fill:
         # every relation is attached while it is still empty, then filled (the children are given their parent by the
         # constructor): the other public way to the same objects
@@ -153,10 +161,10 @@ def _copy(v):
     return copy.deepcopy(v)
 
 
-def build_fm_plain(m, via_set=False, fill=False):
+def build_fm_plain(m, via_set=False, fill=False, listfill=False):
     from flamapy.metamodels.fm_metamodel.models import FeatureModel, Constraint
     from flamapy.core.models.ast import AST
-    root = build_feature(m["root"], None, via_set, fill)
+    root = build_feature(m["root"], None, via_set, fill, listfill)
     ctcs = [Constraint(n, AST(build_node(a))) for n, a in m["ctcs"]]
     return FeatureModel(root, ctcs)
 
@@ -175,6 +183,8 @@ def build_fm(m, mode=None):
         return live.build_detour(m, h, lambda s: build_fm_plain(s, True))
     if mode == live.FILL:
         return build_fm_plain(m, False, True)
+    if mode == live.LISTFILL:
+        return build_fm_plain(m, False, False, True)
     if mode == live.GHOST:
         return live.build_ghost(m, h, lambda s: build_fm_plain(s))
     return build_fm_plain(m)
